@@ -92,9 +92,17 @@ func genCLI(out *bufio.Writer, rng *rand.Rand, count int) int {
 				fixed = ln
 			}
 		}
+		if rng.Intn(8) == 0 {
+			// placements at and above the core size (SpawnWarrior reduces them modulo the core)
+			fixed = (1+rng.Intn(3))*size + []int{0, 0, ln, 2 * ln, size - ln - 1}[rng.Intn(5)]
+		}
 		preset := ""
-		if rng.Intn(7) == 0 {
+		wantConst := rng.Intn(5) == 0
+		if rng.Intn(7) == 0 || (wantConst && rng.Intn(2) == 0) {
 			preset = []string{"nop94", "88", "icws", "noptiny", "nop256", "nopnano", "bogus"}[rng.Intn(7)]
+			if wantConst && preset == "bogus" {
+				preset = "icws"
+			}
 			ln = 5
 			legacy = preset == "88" || preset == "icws"
 			cycles = 0 // unused
@@ -126,6 +134,21 @@ func genCLI(out *bufio.Writer, rng *rand.Rand, count int) int {
 			ln, nfiles = 20, 2
 			size = []int{800, 2000, 8000}[rng.Intn(3)]
 			procs = []int{8000, 1 << uint(k), 1<<uint(k) - 1, 300, 600, 257}[rng.Intn(6)]
+			if rng.Intn(2) == 0 {
+				// a core smaller than the number of tasks: the process limit, not the core size,
+				// decides how many of them exist
+				size = []int{61, 64, 100, 127, 200}[rng.Intn(5)]
+				for 1<<uint(k) <= size {
+					k++
+				}
+				sb.Reset()
+				for i := 0; i < k; i++ {
+					sb.WriteString("spl 1\n")
+				}
+				total = 1 << uint(k)
+				fmt.Fprintf(&sb, "add.ab #1, cnt\nsne.ab #%d, cnt\njmp 0\ncnt dat 0, 0\n", total)
+				procs = []int{total, total - 1, total + 50, size, size + 1, 8000}[rng.Intn(6)]
+			}
 			cycles = 40000
 			rounds = 1
 			fixed = size / 2
@@ -134,7 +157,41 @@ func genCLI(out *bufio.Writer, rng *rand.Rand, count int) int {
 			args := 0
 			_ = args
 		}
-		for i := 0; i < nfiles && !census; i++ {
+		constCheck := !census && wantConst
+		if constCheck {
+			// a warrior that survives only if a predefined constant has the value the options
+			// describe: CORESIZE, MAXLENGTH, MAXPROCESSES, MINDISTANCE
+			var cfg gmars.SimulatorConfig
+			if preset != "" {
+				c, err := gmars.PresetConfig(preset)
+				if err != nil {
+					constCheck = false
+				}
+				cfg = c
+			} else {
+				mode := gmars.ICWS94
+				if legacy {
+					mode = gmars.ICWS88
+				}
+				cfg = gmars.NewQuickConfig(gmars.SimulatorMode(mode), gmars.Address(size), gmars.Address(procs), gmars.Address(cycles), gmars.Address(ln))
+			}
+			if constCheck && cfg.Length >= 4 {
+				names := []string{"CORESIZE", "MAXLENGTH", "MAXPROCESSES", "MINDISTANCE"}
+				vals := []uint64{uint64(cfg.CoreSize), uint64(cfg.Length), uint64(cfg.Processes), uint64(cfg.Distance)}
+				ci := rng.Intn(4)
+				add := uint64(rng.Intn(9))
+				want := (vals[ci] + add) % uint64(cfg.CoreSize)
+				if rng.Intn(4) == 0 {
+					want = (want + 1) % uint64(cfg.CoreSize) // must die
+				}
+				src := fmt.Sprintf("cmp #%d, val\ndat 0, 0\njmp 0\nval dat 0, %s+%d\n", want, names[ci], add)
+				files = append(files, []byte(src), []byte("jmp 0\n"))
+				nfiles = 2
+			} else {
+				constCheck = false
+			}
+		}
+		for i := 0; i < nfiles && !census && !constCheck; i++ {
 			var src []byte
 			if rng.Intn(3) == 0 && !legacy {
 				src = []byte(knownWarriors[rng.Intn(len(knownWarriors))])
@@ -226,4 +283,111 @@ func genCLI(out *bufio.Writer, rng *rand.Rand, count int) int {
 	}
 	_ = hex.EncodeToString
 	return count
+}
+
+// genCLIList (clilist, C16): the text behind the -A option of the built command, for flag
+// vectors and presets; the configuration is the one the options describe (built here from
+// NewQuickConfig / PresetConfig), the expected warrior is what CompileWarrior returns for the
+// file under that configuration. Flags that -A ignores (-F, -r, -c) are thrown in.
+func genCLIList(out *bufio.Writer, rng *rand.Rand, count int) int {
+	bin := os.Getenv("VERIF_GMARS")
+	if bin == "" {
+		fmt.Fprintln(os.Stderr, "clilist: VERIF_GMARS not set")
+		return 0
+	}
+	dir, err := os.MkdirTemp(os.Getenv("VERIF_TMP"), "clilist")
+	if err != nil {
+		fmt.Fprintln(os.Stderr, "clilist:", err)
+		return 0
+	}
+	defer os.RemoveAll(dir)
+	emitted := 0
+	for n := 0; n < count; n++ {
+		legacy := rng.Intn(3) == 0
+		ln := 1 + rng.Intn(10)
+		size := 3*ln + 1 + rng.Intn(400)
+		if rng.Intn(4) == 0 {
+			size = []int{4001, 5000, 8192, 8000, 12000, 256, 80, 800}[rng.Intn(8)]
+			if size < 3*ln+1 {
+				size = 3*ln + 1
+			}
+		}
+		procs := 1 + rng.Intn(100)
+		cycles := 1 + rng.Intn(1000)
+		preset := ""
+		var cfg gmars.SimulatorConfig
+		if rng.Intn(3) == 0 {
+			preset = []string{"nop94", "88", "icws", "noptiny", "nop256", "nopnano"}[rng.Intn(6)]
+			cfg, err = gmars.PresetConfig(preset)
+			if err != nil {
+				continue
+			}
+			legacy = cfg.Mode == gmars.ICWS88
+			if int(cfg.Length) < ln {
+				ln = int(cfg.Length)
+			}
+		}
+		args := []string{}
+		// the other flags are given as well when a preset is named: the preset wins
+		flagLegacy := legacy
+		if preset != "" && rng.Intn(2) == 0 {
+			flagLegacy = !legacy
+		}
+		if preset == "" || rng.Intn(2) == 0 {
+			if flagLegacy {
+				args = append(args, "-8")
+			}
+			args = append(args, "-s", fmt.Sprint(size), "-p", fmt.Sprint(procs), "-c", fmt.Sprint(cycles), "-l", fmt.Sprint(ln))
+		}
+		if preset != "" {
+			args = append(args, "-preset", preset)
+		} else {
+			mode := gmars.ICWS94
+			if legacy {
+				mode = gmars.ICWS88
+			}
+			cfg = gmars.NewQuickConfig(gmars.SimulatorMode(mode), gmars.Address(size), gmars.Address(procs), gmars.Address(cycles), gmars.Address(ln))
+		}
+		if rng.Intn(3) == 0 {
+			args = append(args, "-F", fmt.Sprint(1+rng.Intn(size)))
+		}
+		if rng.Intn(3) == 0 {
+			args = append(args, "-r", fmt.Sprint(1+rng.Intn(5)))
+		}
+		args = append(args, "-A")
+		var src []byte
+		if rng.Intn(4) == 0 && !legacy {
+			src = []byte(knownWarriors[rng.Intn(len(knownWarriors))])
+		} else {
+			src = cliWarrior(rng, ln, legacy)
+		}
+		want, werr := gmars.CompileWarrior(bytes.NewReader(src), cfg)
+		if werr != nil || len(want.Code) == 0 {
+			continue
+		}
+		p := filepath.Join(dir, fmt.Sprintf("a%d.red", n))
+		os.WriteFile(p, src, 0o644)
+		args = append(args, p)
+		ctx, cancel := context.WithTimeout(context.Background(), 30*time.Second)
+		cmd := exec.CommandContext(ctx, bin, args...)
+		var so, se bytes.Buffer
+		cmd.Stdout, cmd.Stderr = &so, &se
+		rerr := cmd.Run()
+		timedOut := ctx.Err() == context.DeadlineExceeded
+		cancel()
+		resp := ""
+		switch {
+		case timedOut:
+			resp = "timeout"
+		case rerr != nil:
+			resp = "panic:exit " + strings.ReplaceAll(strings.TrimSpace(rerr.Error()), " ", "_")
+		default:
+			text := so.String()
+			text = strings.TrimSuffix(text, "\n") // Println adds one newline after the listing
+			resp = hexd([]byte(text))
+		}
+		fmt.Fprintf(out, "K ka%d listing %s %d %s | %s\n", n, cfgFields(cfg), want.Start, cellsd(want.Code), resp)
+		emitted++
+	}
+	return emitted
 }
